@@ -20,6 +20,8 @@ pub struct DevState {
     pub ops: u64,
     pub fault_at: Option<u64>,
     pub faulted: bool,
+    /// the injected fault is reported as `ErrorKind::Interrupted` (std's write_all/read_exact retry those)
+    pub fault_interrupted: bool,
     pub chunk: Option<Rng>,
     pub record: bool,
     pub log: Vec<Ev>,
@@ -36,6 +38,7 @@ impl SimDev {
             ops: 0,
             fault_at: None,
             faulted: false,
+            fault_interrupted: false,
             chunk: None,
             record: false,
             log: vec![],
@@ -55,6 +58,9 @@ impl SimDev {
         s.fault_at = at;
         s.faulted = false;
     }
+    pub fn set_fault_interrupted(&self, on: bool) {
+        self.0.borrow_mut().fault_interrupted = on;
+    }
     pub fn set_chunk(&self, rng: Option<Rng>) {
         self.0.borrow_mut().chunk = rng;
     }
@@ -72,7 +78,8 @@ impl SimDev {
         s.ops += 1;
         if s.fault_at == Some(n) {
             s.faulted = true;
-            return Err(Error::new(ErrorKind::Other, "injected device fault"));
+            let kind = if s.fault_interrupted { ErrorKind::Interrupted } else { ErrorKind::Other };
+            return Err(Error::new(kind, "injected device fault"));
         }
         Ok(())
     }
